@@ -4,6 +4,7 @@ CONSTANTS
   EnvVars <- GenEnv
   QueryKinds <- GenQueries
   BlockChoices <- NoBlocks
+  Versions <- GateVersions
   MaxPert = 1
   EmitAt = 1000
   Scenarios = {1, 2, 3, 4, 5}
